@@ -14,7 +14,7 @@ from __future__ import annotations
 import types
 
 from engine import coop
-from engine.api import SEED, cond, is_open, pick, task
+from engine.api import SEED, cond, is_open, pick, task  # noqa: F401
 
 from vgi_rpc.http.server import _sticky as st
 
@@ -257,12 +257,18 @@ def _signature_for(roles: list[int], past: list[bool], first: int, pre) -> str: 
 
 
 def _replay(roles: list[int], past: list[bool], first: int, pre) -> str | None:  # type: ignore[no-untyped-def]
-    import threading
-
     s, world, registry, entry = _scenario(roles, past, first, pre)
     model_bad = [b for b in _problems(s, world, registry, entry, roles, past) if not is_open("C26:" + b)]
     if not model_bad:
         return None
+    return _run_real(roles, past, s)[0]
+
+
+def _run_real(roles: list[int], past: list[bool], s):  # type: ignore[no-untyped-def]
+    """Force the recorded schedule onto genuine threads running the unmodified functions.
+    Returns (violation description | None, real world, replay result)."""
+    import threading
+
     ident: dict[int, int] = {}
     rworld = _World(lambda: ident.get(threading.get_ident(), -1))
     for i, r in enumerate(roles):
@@ -314,7 +320,7 @@ def _replay(roles: list[int], past: list[bool], first: int, pre) -> str | None: 
             setattr(st, k, v)
         _WORLD.pop()
     if res["diverged"] or not res["completed"]:
-        return None
+        return None, rworld, res
 
     class _S:
         deadlocked = False
@@ -327,8 +333,8 @@ def _replay(roles: list[int], past: list[bool], first: int, pre) -> str | None: 
     if any(res["exceptions"]):
         real_bad.append("exception:" + str([e for e in res["exceptions"] if e]))
     if real_bad:
-        return f"real threads ({res['segments']} segments), roles={[ROLES[r] for r in roles]} past_ttl={past}: {real_bad}; close hook ran {rworld.closes}x; dispatched={rworld.dispatched}"
-    return None
+        return f"real threads ({res['segments']} segments), roles={[ROLES[r] for r in roles]} past_ttl={past}: {real_bad}; close hook ran {rworld.closes}x; dispatched={rworld.dispatched}", rworld, res
+    return None, rworld, res
 
 
 # ---- items: one per pair of roles (cells run in parallel) --------------------
@@ -497,3 +503,76 @@ def delete_vs_delete_k2(past0: bool, past1: bool, first: int, p1: int, p2: int) 
     post: _
     """
     return _pair(2, 2, past0, past1, first, [(p1, 1 - first), (p2, first)])
+
+
+@task(q=90, t=200, engine="coop-validation", encoded=ENCODED, bound="model validation: concrete schedules forced onto genuine threads")
+def model_matches_real_threads(budget: float, replay=None) -> dict:
+    """Translator validation for the coop encoding (not the deciding step): concrete schedules are run
+    on the rewritten generators and then forced onto real threads running the unmodified methods with
+    real locks; which requests were dispatched and how often the close hook ran must agree."""
+    import random
+
+    rnd = random.Random(SEED)
+    cases = []
+    for roles in ([0, 0], [1, 0], [0, 2], [0, 3], [0, 4], [2, 3], [1, 2]):
+        for _ in range(pick(2, 6)):
+            cases.append((roles, [rnd.random() < 0.3, rnd.random() < 0.3], rnd.randint(0, 1), rnd.randint(1, 70)))
+    agree, bad, samples = 0, [], []
+    for roles, past, first, p1 in cases:
+        s, world, registry, entry = _scenario(roles, past, first, [(p1, 1 - first)])
+        _v, rworld, res = _run_real(roles, past, s)
+        ok = (not res["diverged"]) and res["completed"] and sorted(rworld.dispatched) == sorted(world.dispatched) and rworld.closes == world.closes and not any(res["exceptions"])
+        if ok:
+            agree += 1
+            coop.STATS["real_replays_agree"] += 1
+        else:
+            bad.append({"roles": [ROLES[r] for r in roles], "past": past, "first": first, "p1": p1, "model": [world.dispatched, world.closes], "real": [rworld.dispatched, rworld.closes], "replay": {k: res[k] for k in ("diverged", "completed", "segments")}})
+        if len(samples) < 3:
+            samples.append({"roles": [ROLES[r] for r in roles], "schedule": {"first": first, "preempt_after_statement": p1}, "segments": res["segments"], "model": {"dispatched": world.dispatched, "closes": world.closes}, "real_threads": {"dispatched": rworld.dispatched, "closes": rworld.closes}})
+    return {"verdict": "CONFIRMED" if not bad else "ERROR", "queries": len(cases), "discharged": agree, "solver_s": 0.0, "samples": samples, "detail": f"model/real-thread disagreement: {bad[:2]}" if bad else ""}
+
+
+# ---- thorough: three threads on one session ------------------------------------------------------
+
+
+def _triple(roles: list[int], past0: bool, past1: bool, past2: bool, first: int, pre) -> bool:  # type: ignore[no-untyped-def]
+    s, world, registry, entry = _scenario(roles, [past0, past1, past2], first, pre)
+    return _verdict(s, world, registry, entry, roles, [past0, past1, past2])
+
+
+def _triple_replay(roles: list[int]):  # type: ignore[no-untyped-def]
+    return lambda a: _replay(roles, [a["past0"], a["past1"], a["past2"]], a["first"], [(a["p1"], a["t1"])] + ([(a["p2"], a["t2"])] if "p2" in a else []))
+
+
+def _triple_sig(roles: list[int]):  # type: ignore[no-untyped-def]
+    return lambda a, conc: _signature_for(roles, [a["past0"], a["past1"], a["past2"]], a["first"], [(a["p1"], a["t1"])] + ([(a["p2"], a["t2"])] if "p2" in a else []))
+
+
+_TB = "threads: %s on one live session; symbolic start thread + %d preemption(s) to any thread at any statement; each thread's clock before/after the TTL"
+
+
+@cond(q=100, t=2400, tiers=("thorough",), engine="coop", encoded=ENCODED, stubs=ASSUMPTIONS[:2], bound=_TB % ("request + request closing in-method + DELETE", 1), replay=_triple_replay([0, 1, 2]), signature=_triple_sig([0, 1, 2]))
+def request_closing_request_delete_k1(past0: bool, past1: bool, past2: bool, first: int, p1: int, t1: int) -> bool:
+    """
+    pre: 0 <= first <= 2 and 0 <= t1 <= 2 and 0 <= p1 <= 160
+    post: _
+    """
+    return _triple([0, 1, 2], past0, past1, past2, first, [(p1, t1)])
+
+
+@cond(q=100, t=2400, tiers=("thorough",), engine="coop", encoded=ENCODED, stubs=ASSUMPTIONS[:2], bound=_TB % ("request + DELETE + reaper tick", 1), replay=_triple_replay([0, 2, 3]), signature=_triple_sig([0, 2, 3]))
+def request_delete_reaper_k1(past0: bool, past1: bool, past2: bool, first: int, p1: int, t1: int) -> bool:
+    """
+    pre: 0 <= first <= 2 and 0 <= t1 <= 2 and 0 <= p1 <= 160
+    post: _
+    """
+    return _triple([0, 2, 3], past0, past1, past2, first, [(p1, t1)])
+
+
+@cond(q=100, t=3000, tiers=("thorough",), engine="coop", encoded=ENCODED, stubs=ASSUMPTIONS[:2], bound=_TB % ("request + request + shutdown", 2), replay=_triple_replay([0, 0, 4]), signature=_triple_sig([0, 0, 4]))
+def request_request_shutdown_k2(past0: bool, past1: bool, past2: bool, first: int, p1: int, t1: int, p2: int, t2: int) -> bool:
+    """
+    pre: 0 <= first <= 2 and 0 <= t1 <= 2 and 0 <= t2 <= 2 and 0 <= p1 < p2 <= 120 and not past0 and not past2
+    post: _
+    """
+    return _triple([0, 0, 4], past0, past1, past2, first, [(p1, t1), (p2, t2)])
